@@ -288,6 +288,19 @@ func histReplay(in io.Reader, raw bool, args []string) (*Summary, error) {
 			}
 			b2v = func(t *big.Rat) float64 { return math.Pow(float64(sh.B), rf(t)/float64(sh.M)) }
 		}
+		// "BinToValue is increasing" through the finest lens: at neighbouring floats of the bin coordinate the value never
+		// steps back (linear histograms: one multiplication or division and one addition, both monotone)
+		if sh.Kind == "lin" && !huge {
+			for k := 0; k < 40; k++ {
+				t := float64(sh.NBins) * float64((k*7919+int(sh.Min&1023)*31)%1000) / 1000
+				t2 := math.Nextafter(t, math.Inf(1))
+				sum.Checks++
+				if a, b := h.BinToValue(t), h.BinToValue(t2); b < a {
+					sum.viol("BinToValue-monotone", c, "BinToValue(%.17g)=%.17g > BinToValue(%.17g)=%.17g", t, a, t2, b)
+					break
+				}
+			}
+		}
 		if _, bins, _ := h.Counts(); len(bins) != sh.NBins {
 			sum.viol("shape", c, "histogram has %d bins, want %d", len(bins), sh.NBins)
 			return
